@@ -84,6 +84,10 @@ def judge_matrix(ctx, M, cfg, tag):
     # between the two readings (relative 1e-8 of the displacement at 40 arcsec) is not judged
     Rtan = sum(slopecov.reference_matrix(cfg, [l], projection="tangent") for l in range(cfg["n_layers"]))
     tol = tol + np.abs(Rtan - R)
+    # the fitted scale k inherits the noise of the entries it is fitted on (dominant entries of a sensor whose projected
+    # sub-apertures are ~1e-8 L0 carry 2e-5 of cancellation noise): worst-case propagation of the entry tolerances into k
+    if rmax > 0:
+        tol = tol + float((tol * np.abs(R)).sum() / (R * R).sum()) * np.abs(R)
     err = np.abs(M64 - k * R)
     ratio = float((err / tol).max())
     ctx.metric("entry_err/tol", ratio)
